@@ -296,3 +296,396 @@ Proof. vm_compute. reflexivity. Qed.
 Example ex_hidden_count :
   shown_idxs [-1; 2; 0]%Z = [2; 0] /\ hidden_of 3 [-1; 2; 0]%Z = [1].
 Proof. vm_compute. split; reflexivity. Qed.
+
+(* =======================================================================================
+   Source-translator obligations (round 3, harness/translate/x_assemble.py): the ASSEMBLY step of
+   src/cr/cube/cubepart.py is read from the source text on every check (Gen/AssembleSrc.v, meaning:
+   Base/AsmExp.v - np.block, np.hstack / np.concatenate, np.ix_, fancy indexing with negative wrap-around
+   and IndexError, Python list `+`, np.where, generators over the order) and proved, for ALL sizes and
+   ALL in-range signed orders, to denote the definitions of Model/Assemble.v the theorems above are about
+   (Proofs/GenAgreeAssemble.v).  A source member outside the translator's whitelist is `None` here and
+   its statement `True` (then the check reports the obligation as unavailable).
+   ======================================================================================= *)
+From Coq Require String.
+From CC Require Base.AsmExp Gen.AssembleSrc Proofs.GenAgreeAssemble.
+Section GenAgreeAssemble_C05.   (* scopes and imports below end with the section *)
+Import Coq.Strings.String CC.Base.AsmExp CC.Gen.AssembleSrc CC.Proofs.GenAgreeAssemble.
+Local Open Scope string_scope.
+
+(* _Slice._assemble_matrix = np.block(blocks)[np.ix_(row order, column order)] IS [assemble] ... *)
+Theorem C05_gen_Slice__assemble_matrix :
+  match asm_Slice__assemble_matrix with
+  | Some e => forall (A : Type) (d : A) lit truthy n m p q (B : blocks A) ro co,
+      wf_blocks n m p q B -> Forall (in_range m n) ro -> Forall (in_range q p) co ->
+      aeval A d lit truthy (env_slice [("blocks", blocks_val n m p q B)] ro co) e
+      = VMat (List.length ro) (List.length co) (assemble d n m p q B ro co)
+  | None => True
+  end.
+Proof. exact gen_Slice__assemble_matrix. Qed.
+Print Assumptions C05_gen_Slice__assemble_matrix.
+
+(* ... so cell (i, j) of what the source text computes is the cell of the block selected by the signs of
+   row_order[i], column_order[j] *)
+Theorem C05_gen_Slice__assemble_matrix_cell :
+  match asm_Slice__assemble_matrix with
+  | Some e => forall (A : Type) (d : A) lit truthy n m p q (B : blocks A) ro co,
+      wf_blocks n m p q B -> Forall (in_range m n) ro -> Forall (in_range q p) co ->
+      exists M, aeval A d lit truthy (env_slice [("blocks", blocks_val n m p q B)] ro co) e
+                = VMat (List.length ro) (List.length co) M /\
+                forall i j, i < List.length ro -> j < List.length co ->
+                  gnth d M i j = block_cell d m q B (nth i ro 0%Z) (nth j co 0%Z)
+  | None => True
+  end.
+Proof. exact gen_Slice__assemble_matrix_cell. Qed.
+Print Assumptions C05_gen_Slice__assemble_matrix_cell.
+
+(* _Slice._assemble_marginal: None when the marginal is undefined, else np.hstack(blocks)[order] with the
+   ROW order for a ROWS marginal and the COLUMN order otherwise *)
+Theorem C05_gen_Slice__assemble_marginal :
+  match asm_Slice__assemble_marginal with
+  | Some e => forall (A : Type) (d : A) lit truthy (defined rows : bool) base subs ro co,
+      Forall (in_range (List.length subs) (List.length base)) (if rows then ro else co) ->
+      aeval A d lit truthy (env_marginal defined rows base subs ro co) e
+      = if defined then VVec (assemble_vec d base subs (if rows then ro else co)) else VNone
+  | None => True
+  end.
+Proof. exact gen_Slice__assemble_marginal. Qed.
+Print Assumptions C05_gen_Slice__assemble_marginal.
+
+(* _Strand._assemble_vector = np.concatenate(blocks)[row order] *)
+Theorem C05_gen_Strand__assemble_vector :
+  match asm_Strand__assemble_vector with
+  | Some e => forall (A : Type) (d : A) lit truthy base subs so,
+      Forall (in_range (List.length subs) (List.length base)) so ->
+      aeval A d lit truthy (env_strand [("blocks", vblocks_val base subs)] so) e
+      = VVec (assemble_vec d base subs so)
+  | None => True
+  end.
+Proof. exact gen_Strand__assemble_vector. Qed.
+Print Assumptions C05_gen_Strand__assemble_vector.
+
+(* the orders the assembly uses: the matrix ROW factory, the matrix COLUMN factory, the stripe factory,
+   each asked for SIGNED_INDEXES *)
+Theorem C05_gen_order_signed_indexes :
+  (match asm_Slice__row_order_signed_indexes with
+   | Some e => forall (A : Type) (d : A) lit truthy ins ro co,
+       aeval A d lit truthy (env_slice ins ro co) e = VInts ro
+   | None => True end) /\
+  (match asm_Slice__column_order_signed_indexes with
+   | Some e => forall (A : Type) (d : A) lit truthy ins ro co,
+       aeval A d lit truthy (env_slice ins ro co) e = VInts co
+   | None => True end) /\
+  (match asm_Strand__row_order_signed_indexes with
+   | Some e => forall (A : Type) (d : A) lit truthy ins so,
+       aeval A d lit truthy (env_strand ins so) e = VInts so
+   | None => True end).
+Proof. exact gen_order_signed_indexes. Qed.
+Print Assumptions C05_gen_order_signed_indexes.
+
+(* labels, codes, aliases: np.array(element attribute + subtotal attribute)[order] IS [assemble_vec] - rows
+   from dimension 0 with the row order, columns from dimension 1 with the column order ([labels_agree]:
+   for all element types, attribute lists and in-range orders) *)
+Theorem C05_gen_labels :
+  labels_agree asm_Slice_row_labels "dim0" "element_labels" "subtotal_labels" true /\
+  labels_agree asm_Slice_row_codes "dim0" "element_ids" "insertion_ids" true /\
+  labels_agree asm_Slice_row_aliases "dim0" "element_aliases" "subtotal_aliases" true /\
+  labels_agree asm_Slice_column_labels "dim1" "element_labels" "subtotal_labels" false /\
+  labels_agree asm_Slice_column_codes "dim1" "element_ids" "insertion_ids" false /\
+  labels_agree asm_Slice_column_aliases "dim1" "element_aliases" "subtotal_aliases" false /\
+  strand_labels_agree asm_Strand_row_labels "element_labels" "subtotal_labels" /\
+  strand_labels_agree asm_Strand_row_codes "element_ids" "insertion_ids" /\
+  strand_labels_agree asm_Strand_row_aliases "element_aliases" "subtotal_aliases".
+Proof.
+  exact (conj gen_Slice_row_labels (conj gen_Slice_row_codes (conj gen_Slice_row_aliases
+        (conj gen_Slice_column_labels (conj gen_Slice_column_codes (conj gen_Slice_column_aliases
+        (conj gen_Strand_row_labels (conj gen_Strand_row_codes gen_Strand_row_aliases)))))))).
+Qed.
+Print Assumptions C05_gen_labels.
+
+(* rows_dimension_fills (slice: `idx >= 0`, strand: `idx > -1`, each with subtotals[idx + len(subtotals)])
+   IS [fills_of] *)
+Theorem C05_gen_fills :
+  (match asm_Slice_rows_dimension_fills with
+   | Some e => forall (A : Type) (d : A) lit truthy base subs ro co,
+       Forall (in_range (List.length subs) (List.length base)) ro ->
+       aeval A d lit truthy (env_slice (fills_ins "dim0" base subs) ro co) e
+       = VList (fills_of d base subs ro)
+   | None => True end) /\
+  (match asm_Strand_rows_dimension_fills with
+   | Some e => forall (A : Type) (d : A) lit truthy base subs so,
+       Forall (in_range (List.length subs) (List.length base)) so ->
+       aeval A d lit truthy (env_strand (fills_ins "rowsdim" base subs) so) e
+       = VList (fills_of d base subs so)
+   | None => True end).
+Proof. exact (conj gen_Slice_rows_dimension_fills gen_Strand_rows_dimension_fills). Qed.
+Print Assumptions C05_gen_fills.
+
+(* inserted / derived / difference position lists ARE [inserted_idxs] / [derived_idxs_slice] /
+   [derived_idxs_strand] / [diff_idxs] of the same order (flag vectors [e.derived ..] + [False] * n_subtotals,
+   [False] * n_valid + [s.is_difference ..], np.where of the re-indexed vector) *)
+Theorem C05_gen_position_lists :
+  inserted_agree_slice asm_Slice_inserted_row_idxs true /\
+  inserted_agree_slice asm_Slice_inserted_column_idxs false /\
+  (match asm_Strand_inserted_row_idxs with
+   | Some e => forall (A : Type) (d : A) lit truthy ins so,
+       aeval A d lit truthy (env_strand ins so) e = VNats (inserted_idxs so)
+   | None => True end) /\
+  derived_agree_slice asm_Slice_derived_row_idxs "dim0" true /\
+  derived_agree_slice asm_Slice_derived_column_idxs "dim1" false /\
+  diff_agree_slice asm_Slice_diff_row_idxs "dim0" true /\
+  diff_agree_slice asm_Slice_diff_column_idxs "dim1" false /\
+  (match asm_Strand_derived_row_idxs with
+   | Some e => forall derived is_diff so,
+       Forall (in_range (List.length is_diff) (List.length derived)) so ->
+       aeval bool false blit btruthy (env_strand (flags_ins "rowsdim" derived is_diff) so) e
+       = VNats (derived_idxs_strand derived (List.length is_diff) so)
+   | None => True end) /\
+  (match asm_Strand_diff_row_idxs with
+   | Some e => forall derived is_diff so,
+       Forall (in_range (List.length is_diff) (List.length derived)) so ->
+       aeval bool false blit btruthy (env_strand (flags_ins "rowsdim" derived is_diff) so) e
+       = VNats (diff_idxs (List.length derived) is_diff so)
+   | None => True end).
+Proof.
+  exact (conj gen_Slice_inserted_row_idxs (conj gen_Slice_inserted_column_idxs (conj gen_Strand_inserted_row_idxs
+        (conj gen_Slice_derived_row_idxs (conj gen_Slice_derived_column_idxs (conj gen_Slice_diff_row_idxs
+        (conj gen_Slice_diff_column_idxs (conj gen_Strand_derived_row_idxs gen_Strand_diff_row_idxs)))))))).
+Qed.
+Print Assumptions C05_gen_position_lists.
+(* the public row_order(format) / column_order(format) the relational leg of the check re-indexes with: the
+   ROW / COLUMN / stripe factory in the format asked for - with SIGNED_INDEXES the very order the assembly
+   uses *)
+Theorem C05_gen_public_orders :
+  (match asm_Slice_row_order with
+   | Some e => forall (A : Type) (d : A) lit truthy bogus ords,
+       aeval A d lit truthy (env_format bogus ords) e = ords FMatrixRow (if bogus then FmtBogus else FmtSigned)
+   | None => True end) /\
+  (match asm_Slice_column_order with
+   | Some e => forall (A : Type) (d : A) lit truthy bogus ords,
+       aeval A d lit truthy (env_format bogus ords) e = ords FMatrixColumn (if bogus then FmtBogus else FmtSigned)
+   | None => True end) /\
+  (match asm_Strand_row_order with
+   | Some e => forall (A : Type) (d : A) lit truthy bogus ords so bl,
+       ords FStripe FmtSigned = VInts so -> ords FStripe FmtBogus = VList bl ->
+       aeval A d lit truthy (env_format bogus ords) e = if bogus then VVec bl else VInts so
+   | None => True end).
+Proof. exact gen_public_orders. Qed.
+Print Assumptions C05_gen_public_orders.
+End GenAgreeAssemble_C05.
+
+(* ---- WIRING-APPENDIX:BEGIN (generated by tools/gen_wiring_props.py; do not edit) ---- *)
+From CC Require Proofs.GenAgreeWiring_C05.
+Section Wiring_C05.
+Import Coq.Lists.List Coq.ZArith.ZArith Coq.Strings.String CC.Base.WiringExp CC.Gen.WiringSrc.
+Import ListNotations.
+Local Open Scope string_scope.
+
+Theorem C05_wiring_CubePartition__dimensions :
+  wsrc_CubePartition__dimensions = Some (WRaise "NotImplementedError").
+Proof. exact Proofs.GenAgreeWiring_C05.gen_wiring_CubePartition__dimensions. Qed.
+Print Assumptions C05_wiring_CubePartition__dimensions.
+
+Theorem C05_wiring_CubePartition__transforms_dict :
+  wsrc_CubePartition__transforms_dict = Some (WIf (WCmp "is" (WSelf "_transforms_arg") (WNone)) (WDict
+      []) (WSelf "_transforms_arg")).
+Proof. exact Proofs.GenAgreeWiring_C05.gen_wiring_CubePartition__transforms_dict. Qed.
+Print Assumptions C05_wiring_CubePartition__transforms_dict.
+
+Theorem C05_wiring_Slice_column_order :
+  wsrc_Slice_column_order = Some (WCall (WGlobal "__defaults__") [WIf (WCmp "==" (WVar "format")
+      (WAttr (WGlobal "ORDER_FORMAT") "BOGUS_IDS")) (WCall (WAttr (WGlobal "_BaseOrderHelper")
+      "column_display_order") [WSelf "_dimensions"; WSelf "_measures"] [("format", WAttr (WGlobal
+      "ORDER_FORMAT") "BOGUS_IDS")]) (WSelf "_column_order_signed_indexes")] [("format", WAttr
+      (WGlobal "ORDER_FORMAT") "SIGNED_INDEXES")]).
+Proof. exact Proofs.GenAgreeWiring_C05.gen_wiring_Slice_column_order. Qed.
+Print Assumptions C05_wiring_Slice_column_order.
+
+Theorem C05_wiring_Slice_inserted_column_idxs :
+  wsrc_Slice_inserted_column_idxs = Some (WCall (WGlobal "tuple") [WComp "gen" (WVar "i") [(["i";
+      "col_idx"], WCall (WGlobal "enumerate") [WSelf "_column_order_signed_indexes"] [], [WCmp "<"
+      (WVar "col_idx") (WInt (0)%Z)])]] []).
+Proof. exact Proofs.GenAgreeWiring_C05.gen_wiring_Slice_inserted_column_idxs. Qed.
+Print Assumptions C05_wiring_Slice_inserted_column_idxs.
+
+Theorem C05_wiring_Slice_inserted_row_idxs :
+  wsrc_Slice_inserted_row_idxs = Some (WCall (WGlobal "tuple") [WComp "gen" (WVar "i") [(["i";
+      "row_idx"], WCall (WGlobal "enumerate") [WSelf "_row_order_signed_indexes"] [], [WCmp "<"
+      (WVar "row_idx") (WInt (0)%Z)])]] []).
+Proof. exact Proofs.GenAgreeWiring_C05.gen_wiring_Slice_inserted_row_idxs. Qed.
+Print Assumptions C05_wiring_Slice_inserted_row_idxs.
+
+Theorem C05_wiring_Slice_derived_column_idxs :
+  wsrc_Slice_derived_column_idxs = Some (WCall (WSelf "_derived_element_idxs") [WIndex (WSelf
+      "_dimensions") [WInt (1)%Z]; WSelf "_column_order_signed_indexes"] []).
+Proof. exact Proofs.GenAgreeWiring_C05.gen_wiring_Slice_derived_column_idxs. Qed.
+Print Assumptions C05_wiring_Slice_derived_column_idxs.
+
+Theorem C05_wiring_Slice_derived_row_idxs :
+  wsrc_Slice_derived_row_idxs = Some (WCall (WSelf "_derived_element_idxs") [WSelf "_rows_dimension";
+      WSelf "_row_order_signed_indexes"] []).
+Proof. exact Proofs.GenAgreeWiring_C05.gen_wiring_Slice_derived_row_idxs. Qed.
+Print Assumptions C05_wiring_Slice_derived_row_idxs.
+
+Theorem C05_wiring_Slice_diff_column_idxs :
+  wsrc_Slice_diff_column_idxs = Some (WCall (WSelf "_diff_element_idxs") [WIndex (WSelf "_dimensions")
+      [WInt (1)%Z]; WSelf "_column_order_signed_indexes"] []).
+Proof. exact Proofs.GenAgreeWiring_C05.gen_wiring_Slice_diff_column_idxs. Qed.
+Print Assumptions C05_wiring_Slice_diff_column_idxs.
+
+Theorem C05_wiring_Slice_diff_row_idxs :
+  wsrc_Slice_diff_row_idxs = Some (WCall (WSelf "_diff_element_idxs") [WSelf "_rows_dimension"; WSelf
+      "_row_order_signed_indexes"] []).
+Proof. exact Proofs.GenAgreeWiring_C05.gen_wiring_Slice_diff_row_idxs. Qed.
+Print Assumptions C05_wiring_Slice_diff_row_idxs.
+
+Theorem C05_wiring_Slice_row_order :
+  wsrc_Slice_row_order = Some (WCall (WGlobal "__defaults__") [WIf (WCmp "==" (WVar "format") (WAttr
+      (WGlobal "ORDER_FORMAT") "BOGUS_IDS")) (WCall (WAttr (WGlobal "_BaseOrderHelper")
+      "row_display_order") [WSelf "_dimensions"; WSelf "_measures"] [("format", WAttr (WGlobal
+      "ORDER_FORMAT") "BOGUS_IDS")]) (WSelf "_row_order_signed_indexes")] [("format", WAttr (WGlobal
+      "ORDER_FORMAT") "SIGNED_INDEXES")]).
+Proof. exact Proofs.GenAgreeWiring_C05.gen_wiring_Slice_row_order. Qed.
+Print Assumptions C05_wiring_Slice_row_order.
+
+Theorem C05_wiring_Slice__assemble_marginal :
+  wsrc_Slice__assemble_marginal = Some (WIf (WUn "not" (WAttr (WVar "marginal") "is_defined")) (WNone)
+      (WIndex (WCall (WAttr (WGlobal "np") "hstack") [WAttr (WVar "marginal") "blocks"] []) [WIf
+      (WCmp "==" (WAttr (WVar "marginal") "orientation") (WAttr (WGlobal "MO") "ROWS")) (WSelf
+      "_row_order_signed_indexes") (WSelf "_column_order_signed_indexes")])).
+Proof. exact Proofs.GenAgreeWiring_C05.gen_wiring_Slice__assemble_marginal. Qed.
+Print Assumptions C05_wiring_Slice__assemble_marginal.
+
+Theorem C05_wiring_Slice__assemble_matrix :
+  wsrc_Slice__assemble_matrix = Some (WIndex (WCall (WAttr (WGlobal "np") "block") [WVar "blocks"] [])
+      [WCall (WAttr (WGlobal "np") "ix_") [WSelf "_row_order_signed_indexes"; WSelf
+      "_column_order_signed_indexes"] []]).
+Proof. exact Proofs.GenAgreeWiring_C05.gen_wiring_Slice__assemble_matrix. Qed.
+Print Assumptions C05_wiring_Slice__assemble_matrix.
+
+Theorem C05_wiring_Slice__column_order_signed_indexes :
+  wsrc_Slice__column_order_signed_indexes = Some (WCall (WAttr (WGlobal "_BaseOrderHelper")
+      "column_display_order") [WSelf "_dimensions"; WSelf "_measures"] [("format", WAttr (WGlobal
+      "ORDER_FORMAT") "SIGNED_INDEXES")]).
+Proof. exact Proofs.GenAgreeWiring_C05.gen_wiring_Slice__column_order_signed_indexes. Qed.
+Print Assumptions C05_wiring_Slice__column_order_signed_indexes.
+
+Theorem C05_wiring_Slice__derived_element_idxs :
+  wsrc_Slice__derived_element_idxs = Some (WCall (WGlobal "tuple") [WIndex (WCall (WAttr (WGlobal
+      "np") "where") [WIndex (WCall (WAttr (WGlobal "np") "array") [WBin "+" (WComp "list" (WAttr
+      (WVar "e") "derived") [(["e"], WAttr (WVar "dimension") "valid_elements", [])]) (WBin "*"
+      (WList [WFalse]) (WCall (WGlobal "len") [WAttr (WVar "dimension") "subtotals"] []))] []) [WVar
+      "order"]] []) [WInt (0)%Z]] []).
+Proof. exact Proofs.GenAgreeWiring_C05.gen_wiring_Slice__derived_element_idxs. Qed.
+Print Assumptions C05_wiring_Slice__derived_element_idxs.
+
+Theorem C05_wiring_Slice__diff_element_idxs :
+  wsrc_Slice__diff_element_idxs = Some (WCall (WGlobal "tuple") [WIndex (WCall (WAttr (WGlobal "np")
+      "where") [WIndex (WCall (WAttr (WGlobal "np") "array") [WBin "+" (WBin "*" (WList [WFalse])
+      (WCall (WGlobal "len") [WAttr (WVar "dimension") "valid_elements"] [])) (WComp "list" (WAttr
+      (WVar "e") "is_difference") [(["e"], WAttr (WVar "dimension") "subtotals", [])])] []) [WVar
+      "order"]] []) [WInt (0)%Z]] []).
+Proof. exact Proofs.GenAgreeWiring_C05.gen_wiring_Slice__diff_element_idxs. Qed.
+Print Assumptions C05_wiring_Slice__diff_element_idxs.
+
+Theorem C05_wiring_Slice__dimensions :
+  wsrc_Slice__dimensions = Some (WCall (WGlobal "tuple") [WComp "gen" (WCall (WAttr (WVar "dimension")
+      "apply_transforms") [WVar "transforms"] []) [(["dimension"; "transforms"], WCall (WGlobal
+      "zip") [WIndex (WAttr (WSelf "_cube") "dimensions") [WSlice (WInt (-2)%Z) (WNone)]; WSelf
+      "_transform_dicts"] [], [])]] []).
+Proof. exact Proofs.GenAgreeWiring_C05.gen_wiring_Slice__dimensions. Qed.
+Print Assumptions C05_wiring_Slice__dimensions.
+
+Theorem C05_wiring_Slice__row_order_signed_indexes :
+  wsrc_Slice__row_order_signed_indexes = Some (WCall (WAttr (WGlobal "_BaseOrderHelper")
+      "row_display_order") [WSelf "_dimensions"; WSelf "_measures"] [("format", WAttr (WGlobal
+      "ORDER_FORMAT") "SIGNED_INDEXES")]).
+Proof. exact Proofs.GenAgreeWiring_C05.gen_wiring_Slice__row_order_signed_indexes. Qed.
+Print Assumptions C05_wiring_Slice__row_order_signed_indexes.
+
+Theorem C05_wiring_Slice__rows_dimension :
+  wsrc_Slice__rows_dimension = Some (WIndex (WSelf "_dimensions") [WInt (0)%Z]).
+Proof. exact Proofs.GenAgreeWiring_C05.gen_wiring_Slice__rows_dimension. Qed.
+Print Assumptions C05_wiring_Slice__rows_dimension.
+
+Theorem C05_wiring_Slice__transform_dicts :
+  wsrc_Slice__transform_dicts = Some (WTuple [WCall (WAttr (WSelf "_transforms_dict") "get") [WStr
+      "rows_dimension"; WDict []] []; WCall (WAttr (WSelf "_transforms_dict") "get") [WStr
+      "columns_dimension"; WDict []] []]).
+Proof. exact Proofs.GenAgreeWiring_C05.gen_wiring_Slice__transform_dicts. Qed.
+Print Assumptions C05_wiring_Slice__transform_dicts.
+
+Theorem C05_wiring_Strand_derived_row_idxs :
+  wsrc_Strand_derived_row_idxs = Some (WCall (WGlobal "tuple") [WIndex (WCall (WAttr (WGlobal "np")
+      "where") [WIndex (WCall (WAttr (WGlobal "np") "array") [WBin "+" (WComp "list" (WAttr (WVar
+      "e") "derived") [(["e"], WAttr (WSelf "_rows_dimension") "valid_elements", [])]) (WBin "*"
+      (WList [WFalse]) (WCall (WGlobal "len") [WAttr (WSelf "_rows_dimension") "subtotals"] []))]
+      []) [WSelf "_row_order_signed_indexes"]] []) [WInt (0)%Z]] []).
+Proof. exact Proofs.GenAgreeWiring_C05.gen_wiring_Strand_derived_row_idxs. Qed.
+Print Assumptions C05_wiring_Strand_derived_row_idxs.
+
+Theorem C05_wiring_Strand_diff_row_idxs :
+  wsrc_Strand_diff_row_idxs = Some (WCall (WGlobal "tuple") [WIndex (WCall (WAttr (WGlobal "np")
+      "where") [WIndex (WCall (WAttr (WGlobal "np") "array") [WBin "+" (WBin "*" (WList [WFalse])
+      (WCall (WGlobal "len") [WAttr (WSelf "_rows_dimension") "valid_elements"] [])) (WComp "list"
+      (WAttr (WVar "e") "is_difference") [(["e"], WAttr (WSelf "_rows_dimension") "subtotals",
+      [])])] []) [WSelf "_row_order_signed_indexes"]] []) [WInt (0)%Z]] []).
+Proof. exact Proofs.GenAgreeWiring_C05.gen_wiring_Strand_diff_row_idxs. Qed.
+Print Assumptions C05_wiring_Strand_diff_row_idxs.
+
+Theorem C05_wiring_Strand_inserted_row_idxs :
+  wsrc_Strand_inserted_row_idxs = Some (WCall (WGlobal "tuple") [WComp "gen" (WVar "i") [(["i";
+      "row_idx"], WCall (WGlobal "enumerate") [WSelf "_row_order_signed_indexes"] [], [WCmp "<"
+      (WVar "row_idx") (WInt (0)%Z)])]] []).
+Proof. exact Proofs.GenAgreeWiring_C05.gen_wiring_Strand_inserted_row_idxs. Qed.
+Print Assumptions C05_wiring_Strand_inserted_row_idxs.
+
+Theorem C05_wiring_Strand_row_count :
+  wsrc_Strand_row_count = Some (WCall (WGlobal "len") [WSelf "_row_order_signed_indexes"] []).
+Proof. exact Proofs.GenAgreeWiring_C05.gen_wiring_Strand_row_count. Qed.
+Print Assumptions C05_wiring_Strand_row_count.
+
+Theorem C05_wiring_Strand_row_order :
+  wsrc_Strand_row_order = Some (WCall (WGlobal "__defaults__") [WIf (WCmp "==" (WVar "format") (WAttr
+      (WGlobal "ORDER_FORMAT") "BOGUS_IDS")) (WSelf "_row_order_bogus_ids") (WSelf
+      "_row_order_signed_indexes")] [("format", WAttr (WGlobal "ORDER_FORMAT") "SIGNED_INDEXES")]).
+Proof. exact Proofs.GenAgreeWiring_C05.gen_wiring_Strand_row_order. Qed.
+Print Assumptions C05_wiring_Strand_row_order.
+
+Theorem C05_wiring_Strand__assemble_vector :
+  wsrc_Strand__assemble_vector = Some (WIndex (WCall (WAttr (WGlobal "np") "concatenate") [WVar
+      "blocks"] []) [WSelf "_row_order_signed_indexes"]).
+Proof. exact Proofs.GenAgreeWiring_C05.gen_wiring_Strand__assemble_vector. Qed.
+Print Assumptions C05_wiring_Strand__assemble_vector.
+
+Theorem C05_wiring_Strand__dimensions :
+  wsrc_Strand__dimensions = Some (WTuple [WSelf "_rows_dimension"]).
+Proof. exact Proofs.GenAgreeWiring_C05.gen_wiring_Strand__dimensions. Qed.
+Print Assumptions C05_wiring_Strand__dimensions.
+
+Theorem C05_wiring_Strand__rows_dimension :
+  wsrc_Strand__rows_dimension = Some (WCall (WAttr (WIndex (WAttr (WSelf "_cube") "dimensions") [WInt
+      (-1)%Z]) "apply_transforms") [WSelf "_row_transforms_dict"] []).
+Proof. exact Proofs.GenAgreeWiring_C05.gen_wiring_Strand__rows_dimension. Qed.
+Print Assumptions C05_wiring_Strand__rows_dimension.
+
+Theorem C05_wiring_Strand__row_transforms_dict :
+  wsrc_Strand__row_transforms_dict = Some (WCall (WAttr (WSelf "_transforms_dict") "get") [WStr
+      "rows_dimension"; WDict []] []).
+Proof. exact Proofs.GenAgreeWiring_C05.gen_wiring_Strand__row_transforms_dict. Qed.
+Print Assumptions C05_wiring_Strand__row_transforms_dict.
+
+Theorem C05_wiring_Strand__row_order_signed_indexes :
+  wsrc_Strand__row_order_signed_indexes = Some (WCall (WAttr (WGlobal "np") "array") [WCall (WAttr
+      (WGlobal "stripe_BaseOrderHelper") "display_order") [WSelf "_rows_dimension"; WSelf
+      "_measures"] [("format", WAttr (WGlobal "ORDER_FORMAT") "SIGNED_INDEXES")]] [("dtype", WGlobal
+      "int")]).
+Proof. exact Proofs.GenAgreeWiring_C05.gen_wiring_Strand__row_order_signed_indexes. Qed.
+Print Assumptions C05_wiring_Strand__row_order_signed_indexes.
+
+Theorem C05_wiring_Nub__dimensions :
+  wsrc_Nub__dimensions = Some (WTuple []).
+Proof. exact Proofs.GenAgreeWiring_C05.gen_wiring_Nub__dimensions. Qed.
+Print Assumptions C05_wiring_Nub__dimensions.
+
+End Wiring_C05.
+(* ---- WIRING-APPENDIX:END ---- *)
